@@ -14,7 +14,9 @@ import (
 	"net"
 	"os"
 	"runtime"
+	"strings"
 	"sync"
+	"sync/atomic"
 	"time"
 
 	"github.com/hknutzen/Netspoc-Approve/go/pkg/verifhook"
@@ -38,6 +40,9 @@ var (
 	rd      *bufio.Reader
 	sess    *sshx.Session
 	devDone chan struct{}
+	// devWorking: the device goroutine is neither waiting for input nor
+	// finished (it executes a line or writes the node's state back).
+	devWorking atomic.Bool
 )
 
 func yield(point string) {
@@ -52,6 +57,27 @@ func yield(point string) {
 			select {
 			case <-devDone:
 			case <-time.After(2 * time.Second):
+			}
+		}
+	}
+	// A process counts as parked only when its device goroutine is at rest,
+	// too: otherwise the state file could still change "during" the park
+	// (the write-back at the end of a session runs beside the tool's main
+	// goroutine) and be blamed on whoever runs next.
+	if strings.HasPrefix(point, "dev:") {
+		// The device goroutine itself parks: at rest until released.
+		devWorking.Store(false)
+		defer devWorking.Store(true)
+	} else {
+		for i := 0; devWorking.Load() && i < 20000; i++ {
+			time.Sleep(250 * time.Microsecond)
+		}
+		// A closed session ends with the write-back of the node's state:
+		// wait for it (the device goroutine may not have noticed yet).
+		if sess != nil && sess.IsClosed() {
+			select {
+			case <-devDone:
+			case <-time.After(5 * time.Second):
 			}
 		}
 	}
@@ -105,6 +131,8 @@ func init() {
 		}
 		log := evlog.New()
 		s := sshx.New(log, nil, nil)
+		s.OnIdle = func(idle bool) { devWorking.Store(!idle) }
+		devWorking.Store(true)
 		sess = s
 		devDone = make(chan struct{})
 		dev := &cisco.Device{Node: cisco.NewNode(nf.Conf), Startup: nf.Startup, Log: log, PrintOpt: &cisco.PrintOpt{},
@@ -124,6 +152,7 @@ func init() {
 			if err == nil {
 				os.Remove(nodePath + ".session")
 			}
+			devWorking.Store(false)
 			close(devDone)
 		}()
 		return s.Spawn(timeout)
